@@ -729,6 +729,47 @@ def run_both(exe, model, lines):
     return oh, om, len(lines) - len(keep)
 
 
+# loss classes that no construction-API program and no bundled file produces (each is an explicit
+# conjunct of `Valid`, with a Lean witness of the negation): counted, not violations
+OUTSIDE = {"bbox-dblmax-to-inf", "rect-zero-translation", "unit-null-bbox-to-infinite",
+           "background-volume-overwritten", "empty-logic-unreadable",
+           "nonfinite-double-unreadable", "rect-transformation-unwritable"}
+PROTO_SCENARIOS = ["spheres", "bgspheres", "boxes-cyls", "daughters", "labels-at", "empty-region"]
+LOG_OFF = {"CELER_LOG": "critical", "CELER_LOG_LOCAL": "critical"}
+
+
+def all_diffs(a, b, path="x", out=None):
+    out = [] if out is None else out
+    if type(a) is not type(b):
+        out.append(path)
+    elif isinstance(a, list):
+        if len(a) != len(b):
+            out.append(path + ".len")
+        else:
+            for i, (x, y) in enumerate(zip(a, b)):
+                all_diffs(x, y, f"{path}[{i}]", out)
+    elif a != b:
+        out.append(path)
+    return out
+
+
+def diff_classes(a, b):
+    """classify every difference between two Input S values by the field it is in"""
+    import re
+    ks = {}
+    for pth in all_diffs(a, b):
+        if re.match(r"x\[0\]\[\d+\]\[3\]\[\d+\]\[4\]", pth):
+            k = "obz-dropped"
+        elif re.match(r"x\[0\]\[\d+\](\[1\]|\[3\]\[\d+\]\[0\]|\[6\]\[\d+\])\[[01]\]$", pth):
+            k = "label-at-sign"
+        elif re.match(r"x\[0\]\[\d+\]\[3\]\[\d+\]\[3\]", pth):
+            k = "null-bbox-canonicalised"
+        else:
+            k = "other:" + pth
+        ks.setdefault(k, pth)
+    return ks
+
+
 def classify_loss(key, inp, out):
     """does the observed loss (`out` = real rt answer) match what class `key` predicts?"""
     if key in ("involute-unreadable",):
@@ -814,7 +855,7 @@ def run(ctx):
             k = expect_key or "roundtrip-valid-input"
             if expect_key and not classify_loss(expect_key, s, o):
                 k = "roundtrip-unexpected:" + expect_key
-            if k.startswith("precondition:") or k == "rect-transformation-unwritable":
+            if k.startswith("precondition:") or k in OUTSIDE:
                 tag("outside-statement:" + k)
                 continue
             loss_seen[k] = loss_seen.get(k, 0) + 1
@@ -831,6 +872,46 @@ def run(ctx):
     if corpus:
         compare(corpus, "corpus")
         tag("corpus", len(corpus))
+
+    # ---- 0a. inputs built by the CONSTRUCTION API (orangeinp UnitProto + InputBuilder, in the
+    #          harness): enc/enct/rt/rtm on both sides, field-by-field oracle, tracking oracle
+    _, protos = vlib.run_lines([exe], ["proto " + cj(n) for n in PROTO_SCENARIOS], env=LOG_OFF)
+    proto_S, proto_res = [], {}
+    if len(protos) != len(PROTO_SCENARIOS) or not all(o.startswith("ok ") for o in protos):
+        broken.append("harness `proto` (construction API) failed: " + "; ".join(protos)[:300])
+    else:
+        proto_S = [(n, o[3:]) for n, o in zip(PROTO_SCENARIOS, protos)]
+        for op in ("enc", "enct", "rt", "rtm"):
+            outs, _ = compare([op + " " + s_ for _, s_ in proto_S], "construction-api " + op)
+            tag("construction-api-" + op, len(proto_S))
+            if op != "rt":
+                continue
+            for (n, s_), o in zip(proto_S, outs):
+                if not o.startswith("ok "):
+                    ctx.violation("roundtrip-construction-api:" + n, "an input built by the "
+                                  f"construction API (scenario {n}) cannot be read back: {o}",
+                                  {"ops": ["proto " + cj(n), "rt " + s_], "actual": o})
+                    continue
+                ks = diff_classes(parse_cj(s_), parse_cj(o[3:]))
+                proto_res[n] = sorted(ks)
+                for k, pth in ks.items():
+                    if k.startswith("other:"):
+                        ctx.violation("roundtrip-construction-api:" + n, "an input built by the "
+                                      f"construction API (scenario {n}) changes at {pth}",
+                                      {"ops": ["proto " + cj(n), "rt " + s_], "expected": "ok " + s_,
+                                       "actual": o, "first_difference": pth})
+                    else:
+                        loss_seen[k] = loss_seen.get(k, 0) + 1
+                        if loss_seen[k] <= 1:
+                            losses.append((k, s_, o, pth, f'construction API: proto "{n}"'))
+        _, navs = vlib.run_lines([exe], ["nav " + s_ for _, s_ in proto_S], env=LOG_OFF)
+        evals += len(navs)
+        for (n, s_), o in zip(proto_S, navs):
+            proto_res[n + " (tracking, 128 rays)"] = o
+            if not o.startswith("ok same"):
+                ctx.violation("navigation-differs:proto-" + n, "tracking differs after the JSON "
+                              f"round trip of the construction-API input {n}: {o}",
+                              {"ops": ["proto " + cj(n), "nav " + s_]})
 
     # ---- 0b. the concrete witnesses of the negative theorems, on the real code
     wit = witnesses()
@@ -849,7 +930,7 @@ def run(ctx):
     # ---- 1. bundled inputs: real parse -> dec (both) -> enc/enct/rt/rtm (both) -> oracle, nav
     files = sorted(f for f in os.listdir(DATA) if f.endswith(".org.json"))
     _, loaded = vlib.run_lines([exe], ["load " + os.path.join(DATA, f) for f in files])
-    bundled_S, nav_res = [], {}
+    bundled_S, nav_res = [], dict(proto_res)
     if len(loaded) != len(files) or not all(l.startswith("ok ") for l in loaded):
         broken.append("harness `load` failed on a bundled input")
     else:
@@ -884,7 +965,7 @@ def run(ctx):
             if op in ("rt", "rtm"):
                 oracle_rt([s for _, s in bundled_S], outs, label="bundled/" + op)
         _, navs = vlib.run_lines([exe], ["nav " + s for _, s in bundled_S],
-                                 env={"CELER_LOG": "critical", "CELER_LOG_LOCAL": "critical"})
+                                 env=LOG_OFF)
         evals += len(navs)
         for (f, s), o in zip(bundled_S, navs):
             nav_res[f] = o
@@ -911,7 +992,7 @@ def run(ctx):
             for (f, s_), o in zip(zt, outs):
                 oracle_rt([s_], [o], expect_key="rect-zero-translation", label="bundled " + f)
             _, navs = vlib.run_lines([exe], ["nav " + s_ for _, s_ in zt],
-                                     env={"CELER_LOG": "critical", "CELER_LOG_LOCAL": "critical"})
+                                     env=LOG_OFF)
             evals += len(navs)
             for (f, s_), o in zip(zt, navs):
                 nav_res[f + " (zero translations)"] = o
@@ -993,11 +1074,15 @@ def run(ctx):
         "rect-zero-translation": "a Translation comparing equal to (0,0,0) in a RectArrayInput daughter "
                                  "is read back as NoTransformation",
         "label-at-sign": "a Label whose ext contains '@', or whose name contains '@' while ext is "
-                         "empty, is split differently by from_separator (rfind)",
+                         "empty, is split differently by from_separator (rfind); reachable from "
+                         "the construction API with user-chosen names (UnitProto::Input::label, "
+                         "MaterialInput::label): harness op `proto \"labels-at\"`",
         "unit-null-bbox-to-infinite": "a UnitInput whose bbox is null is written without \"bbox\" and "
                                       "read back with the infinite box",
         "null-bbox-canonicalised": "a non-canonical null volume bbox (lower > upper) is written as "
-                                   "null and read back as the canonical null box",
+                                   "null and read back as the canonical null box; UnitProto emits "
+                                   "one for an empty region (intersection of disjoint boxes): "
+                                   "harness op `proto \"empty-region\"`",
         "background-volume-overwritten": "a ZOrder::background volume whose logic/bbox are not "
                                          "{ltrue,lnot}/null is overwritten with those on read",
         "empty-logic-unreadable": "a volume with empty logic and the implicit_vol flag (valid per "
@@ -1012,7 +1097,9 @@ def run(ctx):
         known_class = k in texts
         ctx.violation(k, (texts.get(k) or f"round trip changed a Valid input ({label})")
                       + f" [first difference at {p}; {loss_seen[k]} inputs]",
-                      {"harness": "harness/orangeio.cc", "ops": ["rt " + s],
+                      {"harness": "harness/orangeio.cc",
+                       "ops": ([label.split(": ", 1)[1]] if label.startswith("construction API: ")
+                               else []) + ["rt " + s],
                        "expected": "ok " + s, "actual": o, "first_difference": p,
                        "contradicts": "decode_encode" if not known_class else "outside Valid: see "
                        "the *_not_roundtrip theorems in Props/C19.lean"})
@@ -1058,6 +1145,12 @@ def replay(ctx, data):
     rc = 0
     for op in ops:
         if op.startswith("dec <"):
+            continue
+        if op.startswith("proto "):
+            _, o = vlib.run_lines([exe], [op], env=LOG_OFF)
+            same = bool(o) and o[0] == rp.get("expected")
+            print(op, "-> the construction API builds", "the replayed input" if same else
+                  "a DIFFERENT input than recorded")
             continue
         _, o = vlib.run_lines([exe], [op])
         print(op[:300])
